@@ -32,6 +32,11 @@ class _TupleStrip(ast.NodeTransformer):
                     isinstance(a, ast.Call) and isinstance(a.func, ast.Name)
                     and a.func.id == 'tuple'):
                 return a
+        # a copy of a fresh list display has the same content: list([..]) -> [..]
+        if isinstance(node.func, ast.Name) and node.func.id == 'list' and \
+                len(node.args) == 1 and not node.keywords and \
+                isinstance(node.args[0], (ast.List, ast.ListComp)):
+            return node.args[0]
         return node
 
 
